@@ -15,6 +15,8 @@ PROP = {
   'scalar values by the harness on every run, the rest differentially',
   'JSON∘gzip∘base64 of ProxyClusterMetaData is lossless: `Codec.dec_enc` (a structure field used as hypothesis, not an '
   'axiom); sampled against serde_json/flate2/base64 on every run (every generated meta, every corrupted blob)',
+  'BdMeta = WfMeta without the condition that range lists are fixed points of compact (C17_rt_cluster_any, '
+  'C17_rt_compressed, C17_plain_eq_compressed need only this)',
   'well-formed (WfMeta) = what the plain encoder can express: distinct addresses that are not section words, no address '
   'with an empty slot list, range lists that are fixed points of compact, numbers within u64, scan_count != 0, '
   'valid cluster name, COMPRESS flag clear',
@@ -31,7 +33,8 @@ PROP = {
   'C17_repl_from_resp_strict, generated flag fromRespStrict = true) and was false before (F8, C17_F8_counterexample)',
  ],
  'trusted': [
-  'tools/extract_proto.py (words, limits, defaults, and the drop/strict shape of the from_resp element filter)',
+  'tools/extract_proto.py (words, limits, defaults, the drop/strict shape of the from_resp element filter, and the '
+  'presence of the normalisation loop in the compressed branch of ProxyClusterMeta::parse — it fails loudly without it)',
   'description syntax printer/parser in harness/src/proto_support.rs and lean/UmDriver/Proto.lean',
  ],
 }
@@ -41,8 +44,9 @@ CHECK = {
  'technique': 'Lean 4 theorems over all metas / token lists (structural induction, no bound) + differential '
               'correspondence of the real encoders/decoders against the compiled Lean model',
  'text': 'Proved for every well-formed cluster meta (any number of nodes, ranges, all tag kinds, peers, any config, any '
-         'HashMap iteration order): parse(to_args m) = m; for any lossless codec parse(to_compressed_args m) ≃ m and both '
-         'encodings decode to the same value; parse_repl_meta(encode_repl_meta m) = m; a MigrationTaskMeta survives '
+         'HashMap iteration order): parse(to_args m) = m; for any meta the plain encoder can express, whatever its range lists look like (BdMeta), '
+         'parse(to_args m) = compacted m and, for any lossless codec, parse(to_compressed_args m) ≃ compacted m: both '
+         'encodings decode to the same compacted value (the compressed branch normalises since fix 23e5d8f); parse_repl_meta(encode_repl_meta m) = m; a MigrationTaskMeta survives '
          'join(" ")/split(\' \')/from_strings and SwitchArg its command; the descriptor reported for any stored migration entry — by the source (MIGRATING) or the destination (IMPORTING) proxy — is accepted by commit_migration and commits exactly that migration, in every state of every bounded broker run (C17_task_commit, over the broker model with C10/C01 lemmas), tag None is refused. Proved for every token list: whatever parse '
          'accepts is a well-formed value whose own encoding decodes to exactly it (no misparse), truncation inside a '
          'local or peer group, non-numeric epochs/counts, bad tags, bad range tokens and unknown section words are '
